@@ -344,9 +344,17 @@ def local_defs(fnode):
                 if isinstance(n, ast.Assign):
                     loop_targets_at.setdefault(id(n), set()).update(tn)
 
+    attr_store_last = {}
+    for n in ast.walk(fnode):
+        if isinstance(n, ast.Attribute) and isinstance(n.ctx, (ast.Store, ast.Del)):
+            attr_store_last[norm(n)] = max(attr_store_last.get(norm(n), 0), getattr(n, 'lineno', 0))
+
     def ok_value(v, at=0, node=None):
         # loop variables of a loop that encloses the definition are stable for the rest of that iteration
         lt = loop_targets_at.get(id(node), set()) if node is not None else set()
+        # an attribute read by the definition must not be rebound later in the function
+        if any(isinstance(x, ast.Attribute) and attr_store_last.get(norm(x), 0) >= at for x in ast.walk(v)):
+            return False
         return all(x.id in lt or _ok_name(x, at) for x in ast.walk(v) if isinstance(x, ast.Name) and isinstance(x.ctx, ast.Load))
 
     def _ok_name(x, at):
